@@ -1,5 +1,5 @@
 CFG = {
-    "modules": ["Parsley.Props.C02", "Parsley.Props.C16", "Parsley.Props.C02Struct", "Parsley.Lemmas.SpellEncoder", "Parsley.Props.C02Encoder", "Parsley.Props.C02Wide"],
+    "modules": ["Parsley.Props.C02", "Parsley.Props.C16", "Parsley.Props.C02Struct", "Parsley.Lemmas.SpellEncoder", "Parsley.Props.C02Encoder", "Parsley.Props.C02Wide", "Parsley.Props.C02Dec"],
     "theorems": ["Parsley.C02.name_window_decoder_eq", "Parsley.C02.name_spelling_decodes", "Parsley.C02.name_roundtrip", "Parsley.C02.integer_spec", "Parsley.C02.integer_roundtrip",
                  "Parsley.C02.hexstring_spec", "Parsley.C02.litstring_roundtrip", "Parsley.C02.litLoop_balanced",
                  "Parsley.C02.real_spec", "Parsley.C02.ws_loop_eq_skip", "Parsley.C02.skipWs_run", "Parsley.C02.wsRun_run",
@@ -22,7 +22,10 @@ CFG = {
                  "Parsley.C02.null_value_witness", "Parsley.C02.ref_range_witness",
                  # number tokens of any size: the dispatcher computes the spec NumLit.denote
                  "Parsley.C02.number_token_denotes", "Parsley.C02.spell_parse_wide", "Parsley.C02.numberOrRef_wide",
-                 "Parsley.C02.numberOrRef_overflow", "Parsley.C02.parseInternal_int_range", "Parsley.C02.denote_wide_not_int"],
+                 "Parsley.C02.numberOrRef_overflow", "Parsley.C02.parseInternal_int_range", "Parsley.C02.denote_wide_not_int",
+                 # number tokens WITH a decimal point of any size: the dispatcher computes the spec DecLit.denote (all overflow exits of RealP's fraction loop)
+                 "Parsley.C02.decimal_token_denotes", "Parsley.C02.spell_parse_decimal", "Parsley.C02.realP_dec_overflow",
+                 "Parsley.C02.numberOrRef_dec_overflow", "Parsley.C02.accFrac_overflow", "Parsley.C02.parseInternal_trailing_dot"],
     "partial": {
                 "(depth)": "the depth hypothesis of spell_parse is on the SPELLING depth d (index of `Spells`), not on depth(v): a dropped null-valued "
                 "entry still needs one nesting level (`<</A null>>` has value depth 1 but is rejected at cur+1 = max by the real parser and the model); "
@@ -34,13 +37,17 @@ CFG = {
             "+-10^19, +-10^30, +-(2^127-1), +-2^127, +-(2^128+-5), +-10^39), with `-`/`+`/no sign, 0-2 leading zeros, 4 leading whitespace runs, each bare before the generator's following contexts "
             "(quick: 4 of 15 + ` 2 R` + ` 0 R`; thorough: all), as array element, single array element, dictionary value, array inside a dictionary, and - outside i64 - as object number (`<tok> 0 R` in an "
             "array / dictionary: rejected) and generation (`5 <tok> R`: the Integer 5; in an array: rejected) of a would-be reference; "
+            "number tokens WITH a decimal point of any size (oracle Spec/DecLit.lean: the Real (all digits, 10^k) while numerator and 10^k fit an i128, `12.` = the point-free token, "
+            "not an object beyond; parser side decimal_token_denotes): 20 digit strings around 2^127-1 (last digit decides, one digit more / fewer, 10^37..10^39, 2^128+5, i64 boundaries) split "
+            "into integer and fraction part at 6 places (thorough: every place), fractions of 1/18/36..40 zeros (+ `1`, `99`) after numerators ``, 0, 7, 17, and 5 ordinary tokens; signs, leading "
+            "zeros, leads, following contexts and array / dictionary / would-be-reference positions as for the point-free tokens; corpus decimal_literals.case (21 hand-built); "
             "random values (depth <= 4; boundary integers, reals, names/strings over delimiters, escapes and high bytes, references, arrays, "
             "dictionaries) x random encoder choices (whitespace/comment runs, #hh vs raw and hex case, literal vs hex strings, hex whitespace, "
             "odd-digit shorthand, signs, leading zeros, entry order, null-valued entries) x 15 following contexts x depth slack 0..2; one "
             "single-byte mutation/truncation and one duplicate-key spelling per value. non-trivial = spelling of >= 4 bytes (distinct by case hash)",
     "trusted_base": COMMON_TB + ["modelled, not verified: ParseBuffer primitives as list functions; the relational spec `Spells` defines what a legal spelling is (the encoder `spell` used as generator is proved to produce legal spellings on its whole domain `wfDeep`; every generated value is checked to lie in `wfDeep` at generation time and at build time)"],
     "assumptions": ["integers of the value type handed to the encoder range over -(2^63-1)..2^63-1 (IntegerP has no spelling for i64::MIN; through parse_pdf_obj `-9223372036854775808` does parse, as the Integer i64::MIN, "
-                    "by the real-number path: parseInternal_int_range / number_token_denotes and the `lit` cases); a point-free token outside the i64 range is the real value/1 (spell_parse_wide), beyond i128 not an object; reals are (numerator, 10^k) with k >= 1, unnormalised, as the parser represents them",
+                    "by the real-number path: parseInternal_int_range / number_token_denotes and the `lit` cases); a point-free token outside the i64 range is the real value/1 (spell_parse_wide), beyond i128 not an object; a token with a point whose digits (point removed) exceed 2^127-1 or with 39+ fraction digits is not an object, `12.` is the Integer 12 and a lone `.` is read as 0 (decimal_token_denotes; the generator writes at least one digit); reals are (numerator, 10^k) with k >= 1, unnormalised, as the parser represents them",
                     "string values are the raw bodies (the parser does not unescape)",
                     "domain of the encoder theorems (spell_is_Spells, spell_parse_encoder*): the decidable predicate `wfDeep` of Spec/SpellingWF.lean. It excludes exactly: "
                     "integers outside +-(2^63-1); reals with numerator >= 2^120 or a denominator that is not 10^k (1<=k<30); NUL bytes in names/keys; comments and streams; "
